@@ -29,8 +29,8 @@ struct vp_tok { int kind; unsigned long v; const void *p; int fl; long w; char f
 #else
 struct vp_tok { int kind; unsigned long v; const void *p; };
 #endif
-struct vp_string { int n; int overflow; int nlit; struct vp_tok t[VP_TOK_CAP]; };
-struct vp_os { int n; int overflow; int nlit; struct vp_tok t[VP_TOK_CAP]; int flags; long width; char fill; };
+struct vp_string { int n; int overflow; int nlit; const char *lit; /* last string literal of the library text streamed in */ struct vp_tok t[VP_TOK_CAP]; };
+struct vp_os { int n; int overflow; int nlit; const char *lit; struct vp_tok t[VP_TOK_CAP]; int flags; long width; char fill; };
 struct vp_setw { int w; };
 struct vp_setfill { char c; };
 enum { VP_MANIP_hex = 1, VP_MANIP_dec, VP_MANIP_oct, VP_MANIP_left, VP_MANIP_right, VP_MANIP_internal };
@@ -72,6 +72,8 @@ struct vp_event vp_ev[VP_EV_CAP]; int vp_ev_n;
 
 #include <stdlib.h>
 /* typed heap objects: CBMC types a dynamic object from the cast at the malloc call site */
+#define VP_TAGOF_(x) VP_TAG_##x
+#define VP_TAGOF(x) VP_TAGOF_(x)
 #define VP_NEW(T) ((T *)malloc(sizeof(T)))
 void vp_free(void *p);
 void vp_terminate(void);
